@@ -24,7 +24,9 @@ pub fn table_sub(f: SigNode, sub: i32, env: &mut Uiua) -> UiuaResult {
     // The number of leading axes the table will make, one for each non-scalar argument
     let mut tabled_rank = 0;
     for val in inputs {
-        if sub != -1 {
+        // A list already has the single axis that is tabled over.
+        // Collapsing none of its axes must not reduce it to its first scalar.
+        if sub != -1 && !(sub < 0 && val.rank() == 1) {
             val.deshape_sub(sub + 1, 0, false, Context::NONE)?;
         }
         tabled_rank += (val.rank() > 0) as usize;
